@@ -87,6 +87,14 @@ type procScenario struct {
 	// ModelOnly: several messages / time-outs are in play; the single-message oracle is skipped (the
 	// counter oracle and the model comparison apply)
 	ModelOnly bool `json:"model_only,omitempty"`
+	// Resend (with ModelOnly): the publisher sends the SAME content again under a fresh nonce after the
+	// first message has finished; oracle: the local unit of every message that got k honest units is
+	// broadcast (a finished message must not shadow a new one)
+	Resend bool `json:"resend,omitempty"`
+	// Patient: the child waits up to 20 s (instead of 1 s) for the counters the model expects. Set by
+	// the parent when it runs a scenario again after a counter mismatch: on a machine under heavy
+	// load the goroutines that release a slot can take longer than a second to be scheduled
+	Patient bool `json:"patient,omitempty"`
 	// Expect: the model's task counters after each step (tasks, publisherTasks[publisher of the
 	// step's unit]); the child waits (briefly) until the real counters get there, then reports them
 	Expect [][2]uint64 `json:"expect,omitempty"`
@@ -95,6 +103,8 @@ type procScenario struct {
 type procEvent struct {
 	Unit string `json:"unit"` // canonical rendering of the broadcast unit
 	To   int    `json:"to"`   // number of peers it is to be sent to
+	// the recipients, sorted, as one hexList token (the order in the event is a random shuffle)
+	Peers string `json:"peers,omitempty"`
 }
 
 type procLine struct {
@@ -213,6 +223,8 @@ func (w *procWorld) stepUnit(st procStepT) (*propeller.Unit, peer.ID) {
 		}
 	case "shard-flip":
 		u.ShardData[0][0] ^= 1
+	case "shard-tail-flip": // the LAST byte of the shard (a hash that drops the tail of a long leaf would not see it)
+		u.ShardData[0][len(u.ShardData[0])-1] ^= 0x40
 	case "proof-flip":
 		u.MerkleProof.Siblings[0][3] ^= 0x10
 	case "sig-flip":
@@ -455,7 +467,11 @@ func procChild(path string) {
 		if sc.Once || res == "stuck" {
 			emit(procLine{Step: i, Res: res})
 		} else {
-			tk, pt := await(i, u.Publisher, time.Second)
+			patience := time.Second
+			if sc.Patient {
+				patience = 20 * time.Second
+			}
+			tk, pt := await(i, u.Publisher, patience)
 			emit(procLine{Step: i, Res: res, Tasks: &tk, PTasks: &pt})
 		}
 		prev = i
@@ -684,11 +700,16 @@ func describeEvent(ev propeller.Event) procEvent {
 	if !strings.HasSuffix(s, "broadcastUnit") {
 		return procEvent{Unit: "event:" + s}
 	}
-	u, n := extractBroadcast(ev)
+	u, n, peers := extractBroadcastPeers(ev)
 	if u == nil {
 		return procEvent{Unit: "event:undecodable-broadcastUnit"}
 	}
-	return procEvent{Unit: renderUnit(u), To: n}
+	sort.Strings(peers)
+	pl := make([][]byte, len(peers))
+	for i, q := range peers {
+		pl[i] = []byte(q)
+	}
+	return procEvent{Unit: renderUnit(u), To: n, Peers: hexList(pl)}
 }
 
 // ---------------------------------------------------------------------------------------------
@@ -1026,10 +1047,74 @@ func procCase0(h *hctx, sc *procScenario, pre *procRun) {
 		// evaluated by the caller (delivery statistics)
 	case sc.ModelOnly:
 		h.res.Hit("proc:completed-several-messages")
+		if sc.Resend {
+			// per message: distinct honest units handed over, from their designated senders
+			perMsg := map[int]map[int]bool{}
+			var order []int
+			for _, st := range sc.Steps {
+				if st.Corrupt != "" || st.Sender != "legit" {
+					continue
+				}
+				if perMsg[st.M] == nil {
+					perMsg[st.M] = map[int]bool{}
+					order = append(order, st.M)
+				}
+				perMsg[st.M][st.Unit%total] = true
+			}
+			for _, m := range order {
+				if len(perMsg[m]) < w.k {
+					continue
+				}
+				h.res.Hit("proc:resend-message-with-threshold")
+				want := renderUnit(&w.unitsOf(m)[w.localIdx])
+				count := 0
+				for _, e := range bcasts {
+					if e.Unit == want {
+						count++
+					}
+				}
+				switch {
+				case count == 0 && !runPanicked:
+					h.violate("processor-ignores-a-message-with-the-content-of-a-finished-one",
+						fmt.Sprintf("message %d of the scenario (the same content as message 0, nonce + %d, its own signature) got %d distinct honest units (threshold %d) "+
+							"but its local unit was never broadcast: %s", m, m, len(perMsg[m]), w.k, desc), rp)
+				case count > 1:
+					h.violate("processor-broadcasts-local-unit-twice", fmt.Sprintf("message %d: %d broadcasts of its local unit: %s", m, count, desc), rp)
+				}
+			}
+		}
 	default:
 		h.res.Hit("proc:completed")
 		// every broadcast is the publisher's unit for the local index, and there is at most one
+		// the recipients: the model's list (broadcastUnit's loop over Peers()), and — oracle — exactly
+		// the committee without the publisher and the local peer, each once
+		wantPeers := ""
+		{
+			var others [][]byte
+			for _, m := range w.ms {
+				if m.id != w.pub.id && m.id != w.local.id {
+					others = append(others, []byte(m.id))
+				}
+			}
+			sort.Slice(others, func(i, j int) bool { return bytes.Compare(others[i], others[j]) < 0 })
+			wantPeers = hexList(others)
+		}
+		if len(bcasts) > 0 {
+			if ans := h.ask("bpeers " + hx([]byte(w.local.id)) + " " + hexList(idList(w.ms)) + " " + hx([]byte(w.pub.id))); ans != "" {
+				modelPeers := ans
+				if strings.HasPrefix(ans, "ok ") {
+					if l, err := parseHexList(ans[3:]); err == nil {
+						sort.Slice(l, func(i, j int) bool { return bytes.Compare(l[i], l[j]) < 0 })
+						modelPeers = "ok " + hexList(l)
+					}
+				}
+				h.compare("processor-broadcast-peers", rp, modelPeers, "ok "+bcasts[0].Peers)
+			}
+		}
 		for _, e := range bcasts {
+			if e.Peers != wantPeers {
+				h.violate("processor-broadcast-recipients-wrong", fmt.Sprintf("%s: the local unit is to be sent to %s; the committee without publisher and local peer is %s", desc, clip(e.Peers), clip(wantPeers)), rp)
+			}
 			if e.To != sc.N-2 {
 				h.violate("processor-broadcast-recipient-count", fmt.Sprintf("%s: local unit broadcast to %d peers, committee without publisher and local peer has %d", desc, e.To, sc.N-2), rp)
 			}
@@ -1296,6 +1381,18 @@ func procModel(h *hctx, sc *procScenario, w *procWorld, obs []stepObs, pr procRu
 		if obs[i].hasTasks {
 			h.res.Compared(1)
 			if obs[i].tasks != trace[i].tasks || obs[i].ptasks != trace[i].ptasks {
+				if !sc.Patient && h.patientReruns < 4 {
+					// not reported yet: the same scenario once more with a patient child; a real difference
+					// shows again (and is reported by that run), a scheduling delay does not. At most four
+					// such re-runs per harness run: on a tree that really leaks slots every scenario differs
+					h.patientReruns++
+					h.res.Hit("proc:counter-mismatch-rerun-with-patient-child")
+					sc2 := *sc
+					sc2.Patient = true
+					sc2.Expect = nil
+					procCase0(h, &sc2, nil)
+					return
+				}
 				h.res.Mismatch(lib.Mismatch{Sig: "processor-task-counters", Input: map[string]any{"scenario": slimScenario(sc), "step": i},
 					Model: fmt.Sprintf("tasks=%d publisherTasks=%d", trace[i].tasks, trace[i].ptasks),
 					Impl:  fmt.Sprintf("tasks=%d publisherTasks=%d", obs[i].tasks, obs[i].ptasks)})
@@ -1596,6 +1693,47 @@ func secProcessor(h *hctx, r *lib.RNG) {
 		sc := mk(n, 0, 1, 31, st)
 		sc.StaleMs, sc.ModelOnly = 800, true
 		add(sc)
+	}
+	// message lengths that put the shard (and so the Merkle leaf) around 256 / 512 / 1024 bytes: the
+	// processor's own path (validate -> construct -> fill the local unit) at the sizes of sizes.go
+	for _, nl := range [][2]int{{3, 243}, {4, 250}, {4, 1019}, {7, 495}, {7, 1015}} {
+		n, total := nl[0], nl[0]-1
+		k := max(1, (n-1)/3)
+		idx := make([]int, 0, k)
+		for j := 0; j < k; j++ { // exactly k units, not the local one: the local unit must be rebuilt
+			idx = append(idx, total-1-j)
+		}
+		add(mk(n, 0, 1, nl[1], honestSteps(idx)))
+		steps := append([]procStepT{{Unit: total - 1, Corrupt: "shard-tail-flip", Sender: "legit"}}, honestSteps(allIdx(total))...)
+		add(mk(n, 1, 0, nl[1]+2, steps))
+		// the altered unit arrives when the threshold is one short: it must not complete it
+		steps = append(honestSteps(idx[:k-1]), procStepT{Unit: 0, Corrupt: "shard-tail-flip", Sender: "legit"})
+		steps = append(steps, honestSteps([]int{0})...)
+		add(mk(n, total, 0, nl[1]+4, steps))
+	}
+	// the same content published again under a fresh nonce (the message key differs in the nonce
+	// only: same root), after the first message has finished and sits in the finalized cache — and
+	// interleaved with it
+	for _, n := range []int{4, 5, 7, 8} {
+		total := n - 1
+		k := max(1, (n-1)/3)
+		var st []procStepT
+		for _, i := range allIdx(total) { // message 0 completes (every unit: the receive threshold is reached)
+			st = append(st, procStepT{Unit: i, Sender: "legit"})
+		}
+		for j := 0; j < k; j++ { // message 1: exactly k units, none of them the local one when possible
+			st = append(st, procStepT{Unit: (1 + j) % total, Sender: "legit", M: 1})
+		}
+		sc := mk(n, 0, 1, 31, st)
+		sc.ModelOnly, sc.Resend = true, true
+		add(sc)
+		var st2 []procStepT
+		for _, i := range allIdx(total) { // interleaved: unit i of message 0, then of message 2
+			st2 = append(st2, procStepT{Unit: i, Sender: "legit"}, procStepT{Unit: total - 1 - i, Sender: "legit", M: 2})
+		}
+		sc2 := mk(n, 1, 0, 29, st2)
+		sc2.ModelOnly, sc2.Resend = true, true
+		add(sc2)
 	}
 	// a committee with a member whose peer id embeds no public key: a unit that NAMES it as
 	// publisher (nothing else about the unit matters) at various positions
